@@ -31,7 +31,9 @@ AppliedEvents(pre, post, c) == {r.ev : r \in NewlyAccepted(pre, post, c)}
 \* g.taken[c] : id -> hub-unit amount debited from the sender when the transfer was accepted (hub-origin sends)
 \* g.wd[c]    : <<token, nonce>> of batches the hub withdrew without an observed execution
 GhostInit(s) == [ref |-> [c \in Chains(s) |-> {}], exe |-> [c \in Chains(s) |-> {}], taken |-> [c \in Chains(s) |-> <<>>], wd |-> [c \in Chains(s) |-> {}],
-                 cold |-> [d \in DOMAIN s.sup |-> 0]]
+                 cold |-> [d \in DOMAIN s.sup |-> 0],
+                 \* external height of the last APPLIED event per chain (what "observed" means in C13)
+                 obs |-> [c \in Chains(s) |-> s.ch[c].lohe]]
 
 HubValue(s, c, tr) == LET tok == TokByExt(Cfg(s), c, tr.tok) IN ConvDec(tok.dec, 18, tr.a + tr.f + tr.c)
 DenomOfTr(s, c, tr) == TokByExt(Cfg(s), c, tr.tok).denom
@@ -54,10 +56,18 @@ GhostNext(g, pre, a, res, post) ==
                 g.ref[c] \cup {id \in LiveIds(pre, c) \ LiveIds(post, c) : id \notin {tr.id : tr \in ExecutedNow(pre, post, c)}}],
      exe |-> [c \in Chains(post) |-> g.exe[c] \cup {tr.id : tr \in ExecutedNow(pre, post, c) \cap LiveTrs(pre, c)}],
      taken |-> [c \in Chains(post) |->
-                 IF a.k = "Send" /\ res.out = "ok" /\ a.chain = c THEN Put(g.taken[c], res.id, a.amt + a.fee) ELSE g.taken[c]],
+                 IF a.k = "Send" /\ res.out = "ok" /\ a.chain = c THEN Put(g.taken[c], res.id, a.amt + a.fee)
+                 \* an accepted multi-message transaction: its sends to c got the next transfer ids of c, in message order
+                 ELSE IF a.k = "Tx" /\ res.out = "ok"
+                 THEN LET sends == SelectSeq(a.msgs, LAMBDA m : m.k = "Send" /\ m.chain = c)
+                      IN FoldLeft(LAMBDA acc, j : Put(acc, pre.ch[c].txid + j, sends[j].amt + sends[j].fee), g.taken[c], [j \in DOMAIN sends |-> j])
+                 ELSE g.taken[c]],
      wd |-> [c \in Chains(post) |->
                  g.wd[c] \cup {<<b.tok, b.n>> : b \in {b \in pre.ch[c].bat : (~\E o \in post.ch[c].bat : o.n = b.n /\ o.tok = b.tok)
                                                                   /\ ~\E ev \in AppliedEvents(pre, post, c) : ev.t = "Exec" /\ ev.tok = b.tok /\ ev.bn = b.n}}],
+     obs |-> [c \in Chains(post) |->
+                 LET ap == AppliedEvents(pre, post, c) IN
+                 IF ap = {} THEN g.obs[c] ELSE (CHOOSE ev \in ap : \A o \in ap : o.n <= ev.n).eh],
      \* value of the cold-storage transfers (governance) that were refunded to the transit account instead of being executed
      cold |-> [d \in DOMAIN post.sup |->
                  g.cold[d] + (IF "ColdRefundToTransit" \in Dev THEN 1 ELSE 0) * FoldSet(LAMBDA c, acc : acc + FoldSet(LAMBDA tr, a2 : a2 + HubValue(pre, c, tr), 0, ColdRefundedNow(pre, post, c, d)), 0, Chains(pre) \ {"hub"})]]
@@ -123,13 +133,18 @@ C10Checks(pre, a, post) ==
 
 \* ---------------------------------------------------------------- C13  batches are withdrawn only when unexecutable
 GoneBatches(pre, post, c) == {b \in pre.ch[c].bat : ~\E o \in post.ch[c].bat : o.n = b.n /\ o.tok = b.tok}
-C13Checks(pre, a, post) ==
+C13Checks(g, pre, a, post) ==
+    UNION {
+      \* the hub's record of the last observed external height is the height of the last applied event, never a reported one
+      Fail(post.ch[c].lohe # (LET ap == AppliedEvents(pre, post, c) IN IF ap = {} THEN g.obs[c] ELSE (CHOOSE ev \in ap : \A o \in ap : o.n <= ev.n).eh),
+           "C13:ObservedHeightNotApplied", c) : c \in Chains(post)}
+    \cup
     UNION {
       UNION {
         LET execs  == {ev \in AppliedEvents(pre, post, c) : ev.t = "Exec" /\ ev.tok = b.tok}
             byExec == \E ev \in execs : ev.bn = b.n
             older  == c # "minter" /\ \E ev \in execs : ev.bn > b.n /\ \E x \in pre.ch[c].bat : x.tok = b.tok /\ x.n = ev.bn
-            timed  == a.k = "Begin" /\ c # "minter" /\ b.to < pre.ch[c].lohe
+            timed  == a.k = "Begin" /\ c # "minter" /\ b.to < g.obs[c]
         IN   Fail(~(byExec \/ older \/ timed), "C13:WithdrawnWithoutReason", c)
         \cup Fail(c = "minter" /\ ~byExec, "C13:MinterBatchWithdrawn", c)
              \* released transfers go back to the pool; executed ones go nowhere
@@ -432,7 +447,7 @@ Excused(f) ==
 \* ---------------------------------------------------------------- all step checks that need no external world
 StepChecks(g, pre, a, res, post) ==
        C04Checks(g, pre, a, res, post) \cup C04Status(pre, post)
-  \cup C10Checks(pre, a, post) \cup C13Checks(pre, a, post)
+  \cup C10Checks(pre, a, post) \cup C13Checks(g, pre, a, post)
   \cup C12Cancel(g, pre, a, res, post) \cup C12Expiry(g, pre, a, post)
   \cup C11Send(pre, a, res, post) \cup C11Others(pre, a, res, post) \cup C11Deposit(pre, a, post)
   \cup C02Checks(pre, a, post) \cup C02Vote(pre, a, res, post) \cup C03Checks(pre, a, res, post) \cup C05Checks(a, res)
